@@ -297,6 +297,7 @@ func judge(res *Result) *judged {
 					disc = "multiple-replies"
 				}
 				add("write-protocol", rq.Kind, disc, "step %d: %s got %s, expected one success or one error", k, q(st.Msg), typesOf(rs))
+				model[rq.Arg] = &modelRec{} // content no longer known
 			}
 			jd.outcomes = append(jd.outcomes, label+":"+compress(rs))
 			if len(rs) == 1 && rs[0].Type == "success" {
